@@ -25,8 +25,8 @@ prim_name (int alg)
 {
   static const char *n[] = { "MD4", "MD5", "SHA1", "SHA256", "SHA512", "GOST-hash256",
                              "HMAC-SHA1", "HMAC_SHA256_Buf", "PBKDF2_SHA256", "gost_hmac256",
-                             "HMAC_SHA256-ctx" };
-  return alg >= 0 && alg < 11 ? n[alg] : "?";
+                             "HMAC_SHA256-ctx", "SHA256_Buf" };
+  return alg >= 0 && alg < 12 ? n[alg] : "?";
 }
 
 int
@@ -55,6 +55,8 @@ prim_run (int alg, const uint8_t *msg, size_t len, const uint8_t *key, size_t kl
       { SHA256_CTX *c = ctxbuf; *ctx_used = sizeof *c; SHA256_Init (c); SHA256_Update (c, msg, len); SHA256_Final (out, c); return 32; }
 #endif
 #if INCLUDE_yescrypt || INCLUDE_scrypt || INCLUDE_gost_yescrypt
+    case 11:
+      SHA256_Buf (msg, len, out); return 32;
     case 7:
       HMAC_SHA256_Buf (key, klen, msg, len, out); return 32;
     case 8:
